@@ -272,7 +272,10 @@ fn irr(rng: &mut Rng, ctx: &mut Ctx) {
                 if s >= 4 && rng.next() % 2 == 0 { let ids: Vec<i32> = r.frames.iter().map(|f| f.id).collect(); let lo = ids.first().copied().unwrap_or(-123); let hi = ids.last().copied().unwrap_or(-124);
                     let pick = match rng.next() % 4 { 0 => hi.wrapping_add(1), 1 => lo.wrapping_sub(1), _ => if ids.is_empty() { -123 } else { ids[(rng.next() as usize) % ids.len()].wrapping_add((rng.next() % 2) as i32) } };
                     e[1..5].copy_from_slice(&pick.to_be_bytes()); tags.push("unk-frameid".into()); }
-                let i = (rng.next() as usize) % (body.len() + 1); body.insert(i, e); }
+                let i = (rng.next() as usize) % (body.len() + 1);
+                // by construction, not by chance: in every other such game with a Gecko list of two or more blocks, one unknown event sits between two blocks
+                let ng = gecko_events(&r).len(); let i = if ng >= 2 && (k / 6) % 2 == 0 && !tags.iter().any(|t| t == "unk-between-gecko-blocks") { tags.push("unk-between-gecko-blocks".into()); 1 + (rng.next() as usize) % (ng - 1) } else { i };
+                body.insert(i, e); }
         }
         // the splitter is a generic container: any event may arrive as 512-byte blocks carrying its command byte; the reader reassembles and
         // dispatches it like the plain event (the recorder only splits the Gecko list, the format does not say so)
@@ -647,7 +650,7 @@ fn inc(rng: &mut Rng, ctx: &mut Ctx) {
         let line = match res { Err(_) => { fails.push(("C06".into(), "incremental API panicked on a well-formed replay".into())); "panic".into() } Ok(Err(e)) => { if fl.starts_with("ok") { fails.push(("C12".into(), format!("incremental parse failed where one-shot succeeds: {}", e))); } e } Ok(Ok(s)) => s };
         // the one-shot reader on the same bytes embedded in a larger stream (not at position 0, more bytes behind): the incremental API never seeks,
         // so the one-shot reader must not depend on absolute positions either
-        if k % 3 == 0 { let pre = [3usize, 15, 64, 700][(k / 3) % 4]; let at = read_line_at(&b, false, false, pre, [0usize, 9][(k / 12) % 2]);
+        if (k + k / 12) % 3 == 0 { /* (drifts against the container shapes, which repeat every 12 cases: every shape meets the embedded read) */ let pre = [3usize, 15, 64, 700][(k / 3) % 4]; let at = read_line_at(&b, false, false, pre, [0usize, 9][(k / 12) % 2]);
             if at != fl { fails.push(("C12".into(), format!("one-shot read from stream position {} differs from the one at position 0 (which the incremental API agrees with): {} vs {}", pre, &at[..at.len().min(100)], &fl[..fl.len().min(100)]))); }
             tags.push("embedded".into()); }
         let mut c = Case::new(format!("inc {}", hex(&b)), line); c.oracle = fails; tags.push(format!("plan:{}", pname)); c.tags = tags;
